@@ -119,6 +119,11 @@ type realisation struct {
 	reopen      bool // reopen between the base commit and the block
 	cache       int
 	junkFirst   bool // write other values to the same keys first (overwritten later)
+	// lag: the base block is flushed but only committed after the block under test was executed and flushed
+	// (readers and the next block then see the base block through the account cache only); production cache size only
+	lag bool
+	// pre is committed before the base block, so that the base block can delete and overwrite stored keys
+	pre *netWrites
 }
 
 func rootFor(base, w *netWrites, r *realisation) (string, error) {
@@ -138,12 +143,26 @@ func rootFor(base, w *netWrites, r *realisation) (string, error) {
 		return l, func() { ldb.Close() }
 	}
 	l, closeFn := open()
+	h := uint64(1)
+	if r.pre != nil && len(r.pre.ops()) > 0 {
+		applyWrites(l, r.pre.ops())
+		l.Finalise(true)
+		accounts, root := l.FlushDirtyData()
+		if err := l.Commit(h, accounts, root); err != nil {
+			closeFn()
+			return "", err
+		}
+		h++
+	}
 	applyWrites(l, base.ops())
 	l.Finalise(true)
 	accounts, root := l.FlushDirtyData()
-	if err := l.Commit(1, accounts, root); err != nil {
-		closeFn()
-		return "", err
+	lag := r.lag && r.cache == 0 && !r.reopen
+	if !lag {
+		if err := l.Commit(h, accounts, root); err != nil {
+			closeFn()
+			return "", err
+		}
 	}
 	if r.reopen {
 		closeFn()
@@ -187,6 +206,11 @@ func rootFor(base, w *netWrites, r *realisation) (string, error) {
 	}
 	l.Finalise(true)
 	_, root2 := l.FlushDirtyData()
+	if lag {
+		if err := l.Commit(h, accounts, root); err != nil {
+			return "", err
+		}
+	}
 	return root2.String(), nil
 }
 
@@ -230,7 +254,8 @@ func drawRealisation(t *rapid.T, n int, label string) *realisation {
 	r.noise = rapid.Bool().Draw(t, label+"-noise")
 	r.junkFirst = rapid.Bool().Draw(t, label+"-junk")
 	r.reopen = rapid.Bool().Draw(t, label+"-reopen")
-	r.cache = rapid.SampledFrom([]int{0, 1, 4}).Draw(t, label+"-cache")
+	r.cache = rapid.SampledFrom([]int{0, 0, 1, 4}).Draw(t, label+"-cache")
+	r.lag = rapid.Bool().Draw(t, label+"-lag")
 	if n > 1 {
 		r.txSplit = rapid.IntRange(0, n-1).Draw(t, label+"-split")
 	}
@@ -238,23 +263,70 @@ func drawRealisation(t *rapid.T, n int, label string) *realisation {
 }
 
 func c10StateProperty(t *rapid.T) {
-	base := drawNet(t, "base", 0)
-	// base must not contain deletes (they would be no-ops on an empty store) - normalise
-	for k, v := range base.storage {
+	pre := drawNet(t, "pre", 0)
+	for k, v := range pre.storage {
 		if v == nil {
-			delete(base.storage, k)
+			delete(pre.storage, k) // deletes on an empty store are no-ops
 		}
 	}
+	base0 := drawNet(t, "base", 0)
+	// the base block may delete keys stored by pre; deletes of absent keys are no-ops - normalise
+	for k, v := range base0.storage {
+		if _, stored := pre.storage[k]; v == nil && !stored {
+			delete(base0.storage, k)
+		}
+	}
+	// base is what the block under test starts from: pre overlaid by the base block (used for the deltas below)
+	base := pre.clone()
+	for k, v := range base0.storage {
+		base.storage[k] = v
+	}
+	for a, v := range base0.balance {
+		base.balance[a] = v
+	}
+	for a, v := range base0.nonce {
+		base.nonce[a] = v
+	}
+	for a, v := range base0.code {
+		base.code[a] = v
+	}
 	w := drawNet(t, "w", 1)
+	// history shapes that matter for layered reads: the base block deletes a stored key, the block under test writes
+	// the stored (pre) value of a key again
+	{
+		var pks []string
+		for k := range pre.storage {
+			pks = append(pks, k)
+		}
+		sort.Strings(pks)
+		for _, k := range pks {
+			switch rapid.IntRange(0, 5).Draw(t, "shape") {
+			case 0:
+				base0.storage[k], base.storage[k] = nil, nil
+			case 1:
+				base0.storage[k], base.storage[k] = nil, nil
+				w.storage[k] = pre.storage[k]
+			case 2:
+				w.storage[k] = pre.storage[k]
+			}
+		}
+	}
 	nOps := len(w.ops())
-	canon := &realisation{order: intsUpTo(nOps)}
+	canon := &realisation{order: intsUpTo(nOps), pre: pre}
+	rootFor := func(_ *netWrites, w *netWrites, r *realisation) (string, error) {
+		r.pre = pre
+		return rootFor(base0, w, r)
+	}
 	rootA, err := rootFor(base, w, canon)
 	if err != nil {
 		t.Fatalf("C10 harness: %v", err)
 	}
 	desc := func() string {
 		var d []string
-		for _, o := range base.ops() {
+		for _, o := range pre.ops() {
+			d = append(d, "pre:"+o.String())
+		}
+		for _, o := range base0.ops() {
 			d = append(d, "base:"+o.String())
 		}
 		for _, o := range w.ops() {
